@@ -19,7 +19,7 @@ CONSTANTS MaxIn, Profile, EmitReplay
 
 \* the schedule the real interpreter is configured with during replay (not all ones, so that a
 \* charge of the wrong entry shows)
-Cost == [noop |-> "2", movi |-> "3", subi |-> "5", jnzi |-> "7", ret |-> "11"]
+Cost == [noop |-> "2", movi |-> "3", subi |-> "5", jnzi |-> "7", ret |-> "11", ji |-> "1"]
 Cap == "200"
 
 P(pre, loop, tail) == [pre |-> pre, loop |-> loop, tail |-> tail]
